@@ -127,6 +127,14 @@ func (in *Interp) callAPI(fr *Frame, fn *ssa.Function, args []Value) Value {
 		in.call(fr, args[0], nil, nil)
 		in.sched.noYield--
 		return nil
+	case "SharedWrites":
+		t := &writeTrack{cells: map[*Value]bool{}, maps: map[*Map]bool{}}
+		collectCells(args[0], t, 0)
+		prev := in.track
+		in.track = t
+		in.call(fr, args[1], nil, nil)
+		in.track = prev
+		return cI(in, int64(t.hits))
 	case "Now":
 		return cI(in, in.sched.clock)
 	case "Advance":
